@@ -61,6 +61,9 @@ class DBSpace(data_algebra.data_space.DataSpace):
         if key is None:
             self.n_tmp = self.n_tmp + 1
             key = f"da_temp_{self.n_tmp}"
+            while key in self.description_map.keys():
+                self.n_tmp = self.n_tmp + 1
+                key = f"da_temp_{self.n_tmp}"
         assert isinstance(key, str)
         assert isinstance(allow_overwrite, bool)
         if not allow_overwrite:
@@ -118,6 +121,9 @@ class DBSpace(data_algebra.data_space.DataSpace):
         if key is None:
             self.n_tmp = self.n_tmp + 1
             key = f"da_temp_{self.n_tmp}"
+            while key in self.description_map.keys():
+                self.n_tmp = self.n_tmp + 1
+                key = f"da_temp_{self.n_tmp}"
         assert isinstance(key, str)
         assert isinstance(allow_overwrite, bool)
         if key in self.description_map.keys():
